@@ -762,6 +762,8 @@ def check_known(ctx, monitors):
         for c in split_conns(ops, impl):
             for mon in monitors:
                 if any(kind in CLASS_KINDS[k["cls"]] for (kind, _) in mon(c)):
+                    if k["id"] not in ok:
+                        ctx.known_lines.append("%s %s" % (k["id"], k["text"]))   # listed and still failing: said on every run
                     ok.add(k["id"])
         cmp_impl = [a.partition(" ## ")[0] for a in impl]
         model2 = [a if b == "ambiguous" else b for a, b in zip(cmp_impl, model)]
